@@ -16,6 +16,8 @@ fn rl_queries(g: &mut Gen, name: &str, runs: &[(u64, u64)], len: u64, samples: u
     let step = std::cmp::max(1, runs.len() / 25);
     for (a, l) in runs.iter().step_by(step) { for x in [a.saturating_sub(1), *a, a + 1, a + l - 1, a + l, (a + l).saturating_add(1)] { args.push(x); } }
     for _ in 0..samples { args.push(g.rng.below(len.saturating_add(2).max(1))); }
+    // an even grid over the whole universe (the sample indexes divide the universe evenly, the runs need not)
+    for k in 1..64u64 { let x = ((len as u128 * k as u128) / 64) as u64; args.push(x); args.push(x.saturating_add(1)); }
     args.sort(); args.dedup();
     for a in &args {
         if *a < len { lines.push(format!("rl {} get {}", name, a)); }
@@ -28,12 +30,14 @@ fn rl_queries(g: &mut Gen, name: &str, runs: &[(u64, u64)], len: u64, samples: u
     let mut acc = 0u64;
     for (_, l) in runs.iter().step_by(step) { ranks.push(acc); ranks.push(acc + l - 1); acc += l; }
     for _ in 0..samples { ranks.push(g.rng.below(ones.saturating_add(2).max(1))); }
+    for k in 1..32u64 { ranks.push(((ones as u128 * k as u128) / 32) as u64); }
     ranks.sort(); ranks.dedup();
     for r in &ranks { lines.push(format!("rl {} select {}", name, r)); }
     let z = len - ones;
     let mut zr: Vec<u64> = vec![0, 1, z.saturating_sub(1), z, z.saturating_add(1), z / 2];
     for (a, _) in runs.iter().step_by(step) { zr.push(*a); zr.push(a.saturating_sub(1)); }
     for _ in 0..samples { zr.push(g.rng.below(z.saturating_add(2).max(1))); }
+    for k in 1..32u64 { zr.push(((z as u128 * k as u128) / 32) as u64); }
     zr.sort(); zr.dedup();
     for r in &zr { lines.push(format!("rl {} select0 {}", name, r)); }
     lines.push(format!("rl {} runs", name));
@@ -79,6 +83,24 @@ pub fn c03(g: &mut Gen) {
                 lines.push("rl A ser".to_string());
                 g.group(lines);
             }
+        }
+    }
+    // skewed universes: many short runs (more than 16 blocks) and one huge run or gap at the end / at the start, so that
+    // almost all of the sampled universe lies in one block
+    for (nruns, big) in [(700usize, 1u64 << 40), (3300, 1u64 << 33), (700, 1u64 << 62)] {
+        if !g.thorough && nruns > 1000 { continue; }
+        for shape in 0..4 {
+            let mut runs: Vec<(u64, u64)> = Vec::new();
+            let mut pos = 0u64;
+            if shape == 2 { pos = big; }                                   // huge gap first
+            if shape == 3 { runs.push((0, big)); pos = big; }              // huge run first
+            for i in 0..nruns as u64 { let gap = 1 + (i % 3); let l = 1 + (i % 2); runs.push((pos + gap, l)); pos += gap + l; }
+            let mut len = pos;
+            if shape == 0 { len = pos + big; }                             // huge trailing gap
+            if shape == 1 { runs.push((pos + 1, big)); len = pos + 1 + big; } // huge final run
+            let mut lines = vec![format!("rl A build : {}", runs_calls(&runs, Some(len)))];
+            rl_queries(g, "A", &runs, len, samples, &mut lines);
+            g.group(lines);
         }
     }
     // blocks closed early: runs whose two codes need many units (22 + 21 + … > what is left in the block)
